@@ -42,6 +42,7 @@ import XotModel.Lemmas.SerIndentInner
 import XotModel.Lemmas.NormalizerFullwidth
 import XotModel.Lemmas.WriterXml
 import XotModel.Lemmas.SerIndentLeafParse
+import XotModel.Lemmas.PrettyBytes
 import XotModel.Props.C01
 
 namespace XotModel.Props
@@ -892,6 +893,67 @@ example :
     (fun r : Str × Outcome XotError Unit => (String.ofList r.1, r.2)) (serializeXmlWriteW (.budget (some 40)) xmlEscapers c01Env p t [])
       = ("<?xml version=\"1.0\"?>\n<k>\n  <t/>\n</k>\n", .ok ()) ∧
     (serializeXmlString c01Env p t []).okValue?.map String.ofList = some "<?xml version=\"1.0\"?>\n<k>\n  <t/>\n</k>\n" := by
+  decide
+
+/-! ### C14_pretty_only_whitespace on the CONCATENATED bytes
+
+`C14_pretty_only_whitespace` speaks per token: `k1` ends with `>` OR is the empty end-tag token of an element
+written `<e/>`.  Here the empty token is looked through (Lemmas/PrettyEmptyEnd.lean: on `TextOk` trees the end-tag
+event of a childless element directly follows that element's `startTagClose` event — token `/>`, no newline — and
+`prettify` gives the empty token indentation 0), so the statement is about the two STRINGS.  `prettyBody k` is what
+`serialize_node` writes for the token (`tokenBytes (erasePretty k).2.2`): the plain output is `ks.flatMap prettyBody`
+(`C14_pretty_content`), the indented one `ks.flatMap (prettyTokenBytes ·.2.2)` (`C14_pretty_string`). -/
+
+/-- **C14_pretty_only_whitespace_bytes** (`TextOk` start nodes — well-formed documents and element-rooted
+    subtrees —, every tree around them, every parameter set, arbitrary escaping functions).  Cut both strings
+    between two consecutive tokens `k1 k2` that the indenting writer separates (newline behind `k1` or indentation
+    in front of `k2`); `run` = the characters the indented output has there and the plain output lacks.  Then
+    (a) the indented string is `A ++ run ++ B` and the plain string `A' ++ B'` with `A'`, `B'` the plain bytes of
+        the tokens up to `k1` / from `k2` on;
+    (b) `run` consists of line feeds and blanks;
+    (c) the plain bytes before the run END WITH `>` (`A'.getLast? = some '>'`: not only "the token `k1`", which may
+        be empty);
+    (d) the plain bytes behind the run BEGIN WITH `<`, and so does the token `k2` itself, without a blank in
+        front: the run is maximal in the indented string (`B` begins with `<`).
+    Outside `TextOk` the statement fails: `C14_pretty_fragment_text_gets_newline` (fragment `<a/>x`: the run
+    behind `<a/>` is followed by `x`).  The run behind the LAST token (`…>` + LF at the end of the output) has no
+    `k2`: for it `C14_pretty_token_kinds` (the token closes markup) is the statement on record. -/
+theorem C14_pretty_only_whitespace_bytes (esc : Escapers) (env : Env) (pr : TokenParams) (sup : List Nat)
+    (t : Tree) (start : Path) (n : Tree) (inScope : List (Nat × Nat)) (hat : t.at? start = some n)
+    (hs : namespacesInScope t start = some inScope) (hok : TextOk n)
+    (ks pre post : List (Path × Output × PrettyOutputToken)) (k1 k2 : Path × Output × PrettyOutputToken)
+    (h : prettyTokensWith esc env pr sup t start = .ok ks) (hks : ks = pre ++ k1 :: k2 :: post)
+    (hw : k1.2.2.newline = true ∨ k2.2.2.indentation > 0) :
+    (ks.flatMap (fun k => prettyTokenBytes k.2.2) =
+      (pre.flatMap (fun k => prettyTokenBytes k.2.2)
+          ++ (if k1.2.2.indentation > 0 then indentBytes k1.2.2.indentation else []) ++ prettyBody k1)
+        ++ ((if k1.2.2.newline then prettyNewline else [])
+          ++ (if k2.2.2.indentation > 0 then indentBytes k2.2.2.indentation else []))
+        ++ (prettyBody k2 ++ (if k2.2.2.newline then prettyNewline else [])
+          ++ post.flatMap (fun k => prettyTokenBytes k.2.2))) ∧
+    ks.flatMap prettyBody = (pre ++ [k1]).flatMap prettyBody ++ (k2 :: post).flatMap prettyBody ∧
+    (∀ k, prettyBody k = tokenBytes (erasePretty k).2.2) ∧
+    ((if k1.2.2.newline then prettyNewline else [])
+      ++ (if k2.2.2.indentation > 0 then indentBytes k2.2.2.indentation else [])).all isWsChar = true ∧
+    ((pre ++ [k1]).flatMap prettyBody).getLast? = some '>' ∧
+    ((k2 :: post).flatMap prettyBody).head? = some '<' ∧
+    (prettyBody k2).head? = some '<' := by
+  obtain ⟨a, b, c⟩ := pretty_whitespace_bytes sup t esc env pr start n inScope hat hs hok ks pre post k1 k2 h hks hw
+  refine ⟨?_, ?_, fun _ => rfl, pretty_run_ws k1.2.2 k2.2.2, a, b, c⟩
+  · subst hks
+    simp only [List.flatMap_append, List.flatMap_cons, prettyTokenBytes, prettyBody, List.append_assoc]
+  · subst hks
+    simp only [List.flatMap_append, List.flatMap_cons, List.flatMap_nil, List.append_nil, List.append_assoc]
+
+/-- Non-vacuity, closed: `<d><a/><!--c--></d>` (the example of `C14_pretty_only_whitespace`): between the EMPTY
+    end-tag token of `<a/>` (newline behind it) and `<!--c-->` (indentation 1) the run is LF + two blanks; the
+    plain bytes before it are `<><` + `/>` — ending with `>` although the token `k1` is empty. -/
+example :
+    let t : Tree := .node .document [.node (.element 5) [.node (.element 2) [], .node (.comment ['c']) []]]
+    ∃ ks pre post k1 k2, prettyTokens {} {} [] t [] = .ok ks ∧ ks = pre ++ k1 :: k2 :: post ∧
+      k1.2.2.text = [] ∧ k1.2.2.newline = true ∧ k2.2.2.indentation = 1 ∧
+      (pre ++ [k1]).flatMap prettyBody = "<></>".toList ∧ (k2 :: post).flatMap prettyBody = "<!--c--></>".toList := by
+  refine ⟨_, [_, _, _, _], [_], _, _, rfl, rfl, ?_⟩
   decide
 
 /-! ### Indentation with a comment / processing-instruction / text START node (anywhere in any tree)
